@@ -1,5 +1,10 @@
-(* C12 — placeholder until the engine theorems are added below. *)
-From WF Require Import model.Base model.EngineBase model.Engine.
-Theorem C12_emit_dead_silent : forall t s, o_dead s = true -> emit t s = (Ok tt, s).
-Proof. intros t s H. unfold emit. now rewrite H. Qed.
-Print Assumptions C12_emit_dead_silent.
+(* C12 — timeouts fire only for their own run while it still waits there. Property theorems only. *)
+From WF Require Import model.Base model.RunState model.Graph model.EngineBase model.Engine model.Monitors
+  proofs.EngineTokens proofs.EngineProps proofs.MonitorProofs.
+
+(* for every configuration and every history (any faults, crashes, redeliveries; hist_ok = no stale-read fault, clock
+   advances non-negative): a timeout function of status s is invoked only for a run whose persisted record is at status s
+   and is neither stopped nor finished *)
+Theorem C12_fire_only_while_waiting : forall c ops, hist_ok ops -> forall t, In t (trace_of c ops) -> mon_C12 (ec_graph c) t = true.
+Proof. intros c ops H t Ht. apply (monitors_hold c ops H t Ht). Qed.
+Print Assumptions C12_fire_only_while_waiting.
